@@ -20,6 +20,10 @@ CLAIMED["C18"] = ("model_checking", "5 C18",
     "Nearest-colour tables decided by one solver query per table over the whole domain; description templates with symbolic digit characters parsed by the real "
     "code and compared with the documented number arithmetic; finite description domains enumerated through the solver for the string round trip; arbitrary short ASCII strings for rejection.",
     "z3 trusted; tables read from the imported module; non-ASCII descriptions and the 2^24 string round trip outside.")
+CLAIMED["C11"] = ("model_checking", "5 C11",
+    "The real str_util/util functions run on fully symbolic short texts (every code point / byte value, width table abstracted to any function into {0,1,2}); "
+    "additivity, offset-search, next/prev, trim and encoding assertions discharged per path with unbounded target columns.",
+    "z3 trusted; text length <= 3 quick / 5 thorough; wcwidth's own tables trusted (urwid delegates to wcwidth).")
 NOT_YET = {}
 TECH = "bounded symbolic execution of the real urwid code (AST-lifted import of /repo) with z3 deciding every path obligation; counterexamples replayed on the un-lifted code"
 def main():
